@@ -9,7 +9,9 @@ LEAN = ["PV.C03_unique", "PV.lsa_unique", "PV.code_least_action", "PV.C03_gauge"
 
 def check(tier, seed):
     d = Decision("C03", tier, seed)
-    d.add_units(fold_canaries(run_units(specs_hermitian(tier))))
+    t = 60000 if tier == "thorough" else 20000
+    norm = [("contracts.bd_guards", "unit_fully_diagonalize_normalisation", {"nb": nb, "given": g, "timeout_ms": t}) for nb in (1, 2, 3) for g in ("empty", "list", "ndarray", "dict")]
+    d.add_units(fold_canaries(run_units(specs_hermitian(tier) + norm)))
     d.add_lean(LEAN + LEAN_VACUITY)
     d.assumptions += [LEAN_SETTING_NOTE]
     d.assumptions += ["uniqueness theorem hypothesis Gapped(H0): order by order the map v -> H0 v - v H0 is injective on elements without kept part; for the "
